@@ -24,6 +24,24 @@ impl TagResolver<'_> {
     /// ITU-T X.680 | ISO/IEC 8824-1, 8.6
     /// ITU-T X.680 | ISO/IEC 8824-1, 41, table 8
     pub fn resolve_tag(&self, ty: &str) -> Option<Tag> {
+        self.resolve_tag_at_depth(ty, 0)
+    }
+
+    /// The number of definitions a chain of type references can visit without repeating itself
+    fn max_reference_depth(&self) -> usize {
+        self.model.definitions.len()
+            + self
+                .scope
+                .iter()
+                .map(|model| model.definitions.len())
+                .sum::<usize>()
+    }
+
+    fn resolve_tag_at_depth(&self, ty: &str, depth: usize) -> Option<Tag> {
+        // a longer chain of type references is cyclic (A ::= B, B ::= A) and has no tag
+        if depth > self.max_reference_depth() {
+            return None;
+        }
         self.model
             .imports
             .iter()
@@ -35,11 +53,14 @@ impl TagResolver<'_> {
                     model,
                     scope: self.scope,
                 }
-                .resolve_tag(ty)
+                .resolve_tag_at_depth(ty, depth + 1)
             })
             .or_else(|| {
                 self.model.definitions.iter().find(|d| d.0.eq(ty)).and_then(
-                    |Definition(_name, asn)| asn.tag.or_else(|| self.resolve_type_tag(&asn.r#type)),
+                    |Definition(_name, asn)| {
+                        asn.tag
+                            .or_else(|| self.resolve_type_tag_at_depth(&asn.r#type, depth + 1))
+                    },
                 )
             })
     }
@@ -55,6 +76,10 @@ impl TagResolver<'_> {
     /// ITU-T X.680 | ISO/IEC 8824-1, 8.6
     /// ITU-T X.680 | ISO/IEC 8824-1, 41, table 8
     pub fn resolve_type_tag(&self, ty: &Type) -> Option<Tag> {
+        self.resolve_type_tag_at_depth(ty, 0)
+    }
+
+    fn resolve_type_tag_at_depth(&self, ty: &Type, depth: usize) -> Option<Tag> {
         match ty {
             Type::Boolean => Some(Tag::DEFAULT_BOOLEAN),
             Type::Integer(_) => Some(Tag::DEFAULT_INTEGER),
@@ -67,8 +92,8 @@ impl TagResolver<'_> {
             Type::String(_, Charset::Utf8) => Some(Tag::DEFAULT_UTF8_STRING),
             Type::String(_, Charset::Ia5) => Some(Tag::DEFAULT_IA5_STRING),
             Type::Null => Some(Tag::DEFAULT_NULL),
-            Type::Optional(inner) => self.resolve_type_tag(inner),
-            Type::Default(inner, ..) => self.resolve_type_tag(inner),
+            Type::Optional(inner) => self.resolve_type_tag_at_depth(inner, depth),
+            Type::Default(inner, ..) => self.resolve_type_tag_at_depth(inner, depth),
             Type::Sequence(_) => Some(Tag::DEFAULT_SEQUENCE),
             Type::SequenceOf(_, _) => Some(Tag::DEFAULT_SEQUENCE_OF),
             Type::Set(_) => Some(Tag::DEFAULT_SET),
@@ -82,7 +107,10 @@ impl TagResolver<'_> {
                             .map(|extension_after| extension_after + 1)
                             .unwrap_or_else(|| choice.len()),
                     )
-                    .map(|v| v.tag().or_else(|| self.resolve_type_tag(v.r#type())))
+                    .map(|v| {
+                        v.tag()
+                            .or_else(|| self.resolve_type_tag_at_depth(v.r#type(), depth))
+                    })
                     .collect::<Option<Vec<Tag>>>()?;
                 tags.sort();
                 if cfg!(feature = "debug-proc-macro") {
@@ -91,7 +119,7 @@ impl TagResolver<'_> {
                 tags.into_iter().next()
             }
             Type::TypeReference(inner, tag) => {
-                let tag = (*tag).or_else(|| self.resolve_tag(inner.as_str()));
+                let tag = (*tag).or_else(|| self.resolve_tag_at_depth(inner.as_str(), depth + 1));
                 if cfg!(feature = "debug-proc-macro") {
                     println!("resolved :: {}::Tag = {:?}", inner, tag);
                 }
